@@ -272,6 +272,9 @@ func isIntLiteral(s string) bool {
 	return true
 }
 
+func mkseqOf(s *Sort) string { return "(as mkseq " + s.SMT() + ")" }
+func mkmapOf(s *Sort) string { return "(as mkmap " + s.SMT() + ")" }
+
 // zero value of a sort
 func ZeroOf(s *Sort) Term {
 	switch s.Kind {
@@ -284,11 +287,11 @@ func ZeroOf(s *Sort) Term {
 	case KStr:
 		return Term{S: "str.empty", Sort: SStr}
 	case KSeq:
-		return Term{S: fmt.Sprintf("(mkseq 0 ((as const (Array Int %s)) %s))", s.Elem.SMT(), ZeroOf(s.Elem).S), Sort: s}
+		return Term{S: fmt.Sprintf("(%s 0 ((as const (Array Int %s)) %s))", mkseqOf(s), s.Elem.SMT(), ZeroOf(s.Elem).S), Sort: s}
 	case KArr:
 		return Term{S: fmt.Sprintf("((as const (Array Int %s)) %s)", s.Elem.SMT(), ZeroOf(s.Elem).S), Sort: s}
 	case KMap:
-		return Term{S: fmt.Sprintf("(mkmap ((as const (Array %s Bool)) false) ((as const (Array %s %s)) %s) 0)", s.Key.SMT(), s.Key.SMT(), s.Elem.SMT(), ZeroOf(s.Elem).S), Sort: s}
+		return Term{S: fmt.Sprintf("(%s ((as const (Array %s Bool)) false) ((as const (Array %s %s)) %s) 0)", mkmapOf(s), s.Key.SMT(), s.Key.SMT(), s.Elem.SMT(), ZeroOf(s.Elem).S), Sort: s}
 	case KStruct:
 		parts := []string{}
 		for _, f := range s.Fields {
